@@ -247,18 +247,20 @@ func init() {
 		var specs []Spec
 		if !r.Thorough() {
 			specs = []Spec{
-				{Name: "mixed-T256-L3", Kind: "mixed", T: 256, L: 3, Keys: 2, Classes: []string{"t", "limA+", "A"}, Oracles: or, Depth: 6, Extra: map[string]int{"temp": 1}},
+				{Name: "mixed-T256-L3", Kind: "mixed", T: 256, L: 3, Keys: 2, Classes: []string{"t", "limA+", "A"}, Oracles: or, Depth: 5, Extra: map[string]int{"temp": 1}},
 				{Name: "mixed-split-T256-L5", Kind: "mixed", T: 256, L: 5, Keys: 4, Classes: []string{"limM"}, Oracles: []string{"crash", "ev:commit1"}, Depth: 7},
 			}
-			specs = append(specs, TrajSpecs(r.ID, "arr-mixed", 60, 10, 61, 10, 2, 256, []string{"t", "limA"}, []string{"crash", "ev:commit"})...)
-			specs = append(specs, TrajSpecs(r.ID, "map-grow-lim", 60, 10, 61, 10, 2, 256, []string{"t", "limM"}, []string{"crash", "ev:commit"})...)
+			specs = append(specs, TrajSpecs(r.ID, "arr-mixed", 60, 20, 61, 20, 2, 256, []string{"t"}, []string{"crash", "ev:commit1"})...)
+			specs = append(specs, TrajSpecs(r.ID, "map-grow-lim", 90, 51, 92, 40, 2, 256, []string{"t"}, []string{"crash", "ev:commit1"})...)
+			specs = append(specs, TrajSpecs(r.ID, "map-grow-desc", 90, 61, 92, 30, 2, 256, []string{"limM"}, []string{"crash", "ev:commit1"})...)
+			specs = append(specs, TrajSpecs(r.ID, "arr-append-lim", 70, 71, 72, 15, 2, 256, []string{"limA"}, []string{"crash", "ev:commit1"})...)
 		} else {
 			specs = []Spec{
 				{Name: "mixed-T256-L3", Kind: "mixed", T: 256, L: 3, Keys: 2, Classes: []string{"t", "limA+", "A", "s:M:t"}, Oracles: or, Depth: 7, Extra: map[string]int{"temp": 1}},
 				{Name: "mixed-split-T256-L6", Kind: "mixed", T: 256, L: 6, Keys: 5, Classes: []string{"limM", "t"}, Oracles: []string{"crash", "ev:commit1"}, Depth: 9},
 				{Name: "mixed-T512-L3", Kind: "mixed", T: 512, L: 3, Keys: 2, Classes: []string{"t", "limA+", "A"}, Oracles: or, Depth: 6, Extra: map[string]int{"temp": 1}},
 			}
-			for _, sc := range []string{"arr-mixed", "arr-drain-mid", "map-grow-lim", "map-drain-front"} {
+			for _, sc := range []string{"arr-mixed", "arr-append-lim", "arr-drain-mid", "map-grow-lim", "map-grow-desc", "map-drain-front"} {
 				specs = append(specs, TrajSpecs(r.ID, sc, 100, 5, 101, 5, 2, 256, []string{"t", "limA"}, []string{"crash", "ev:commit"})...)
 				specs = append(specs, TrajSpecs(r.ID, sc, 100, 10, 101, 30, 3, 256, []string{"limA"}, []string{"crash", "ev:commit1"})...)
 			}
@@ -279,7 +281,8 @@ func init() {
 				{Name: "cache-compact-T256", Kind: "mixed", T: 256, L: 2, Keys: 2, Classes: []string{"Mc:t", "Mc:t,t"}, Oracles: or, Depth: 5},
 			}
 			specs = append(specs, TrajSpecs(r.ID, "arr-mixed", 60, 10, 61, 10, 2, 256, []string{"t", "limA"}, or)...)
-			specs = append(specs, TrajSpecs(r.ID, "map-grow-lim", 60, 10, 61, 10, 2, 256, []string{"t", "limM"}, or)...)
+			specs = append(specs, TrajSpecs(r.ID, "map-grow-lim", 90, 31, 92, 20, 2, 256, []string{"t", "limM"}, or)...)
+			specs = append(specs, TrajSpecs(r.ID, "map-grow-desc", 90, 11, 92, 20, 2, 256, []string{"t", "limM"}, or)...)
 		} else {
 			specs = []Spec{
 				{Name: "cache-mixed-T256", Kind: "mixed", T: 256, L: 3, Keys: 2, Classes: []string{"t", "limA+", "A", "s:M:t"}, Oracles: or, Depth: 7},
